@@ -496,6 +496,10 @@ class Machine:
         return list(outcomes)
 
     def _exec_block(self, f, bb, env, cond, outcomes, onpath, counter):
+        if bb in getattr(self, "stop_blocks", ()):
+            # region execution: the path ends where the region ends
+            outcomes.append((cond, "stop", bb))
+            return
         if bb in onpath:
             raise Unsupported("loop in %s at %s" % (f.name, bb))
         counter[0] += 1
